@@ -486,6 +486,30 @@ def keysTruncated (c : Case) (spec out : List Row) : Bool :=
           | none => false
   keyIdx.length ≥ 2 && !sameMultiset spec out && go spec out
 
+/-- `groupby-compressed-key-type` across partitions: one partition shows the true keys, another the keys modulo 256, so a
+    group that exists in both is not merged.  After reducing every integer key cell modulo 256 and re-aggregating by key, the
+    answer and the reference coincide. -/
+def truncKeys (keyIdx : List Nat) (rs : List Row) : List Row :=
+  rs.map fun r => (List.range r.length).map fun i =>
+    match r.getD i .null with
+    | .int v => if keyIdx.contains i then .int (v % 256) else .int v
+    | v => v
+
+def keysTruncatedAcross (c : Case) (spec out : List Row) : Bool :=
+  let keyIdx := (List.range c.sel.length).filter fun i => match c.sel[i]? with | some (SelItem.key _) => true | _ => false
+  keyIdx.length ≥ 2 && !sameMultiset spec out &&
+    sameMultiset (regroup c.sel (truncKeys keyIdx spec)) (regroup c.sel (truncKeys keyIdx out))
+
+/-- `executor-pinned-buffer` (C04/C11/C02), input trigger: a grouping column is also the input of a SUM/MIN/MAX of the same
+    query; the planner shares the scalar offset of its Add codec between the pre- and post-grouping decode and the stage
+    partitioner glues both into one streaming stage (`Trying to mutably borrow pinned buffer`, worker panic) in every
+    partition that stores the column offset-coded. -/
+def pinnedKeyAggregate (c : Case) : Bool :=
+  let keys := keyCols c
+  c.sel.any fun
+    | .agg a => (a.fn = .sum || a.fn = .min || a.fn = .max) && keys.contains a.col
+    | .key _ => false
+
 /-- The finding that explains why realisation `r` deviates from `spec`, or "". -/
 def classifyGrp (c : Case) (spec : Res (List Row)) (r : Real) : String :=
   let c07 := classifyObs r.obs
@@ -502,7 +526,7 @@ def classifyGrp (c : Case) (spec : Res (List Row)) (r : Real) : String :=
         if sentinelPartial c r.split then "sum-sentinel"
         else if c.kind = .grp && nullIntKey c && r.split.length ≥ 2 &&
             (match rowsExplained c cc ac s (regroup c.sel out) with | some _ => true | none => false) then "groupby-null-key-order"
-        else if c.kind = .grp && (keysTruncated c s out || keysTruncated c (nullCounts cc s) out) then "groupby-compressed-key-type"
+        else if c.kind = .grp && (keysTruncated c s out || keysTruncated c (nullCounts cc s) out || keysTruncatedAcross c (nullCounts cc s) (nullCounts cc out)) then "groupby-compressed-key-type"
         -- both at once: groups emitted twice AND truncated keys (a layout with NULL keys and compressed key columns)
         else if c.kind = .grp && nullIntKey c && r.split.length ≥ 2 &&
             (keysTruncated c s (regroup c.sel out) || keysTruncated c (nullCounts cc s) (regroup c.sel out)) then "groupby-null-key-order"
@@ -512,9 +536,15 @@ def classifyGrp (c : Case) (spec : Res (List Row)) (r : Real) : String :=
   | .ok _, none =>
       if may && r.out = "err:overflow" then "sum-overflow-order"
       else if whereNullPartition c r && (r.out = "err:fatal" || r.out = "err:canceled" || r.out = "panic") then "where-null-partition-empty"
+      else if pinnedKeyAggregate c && (r.out = "err:canceled" || r.out = "panic" || r.out = "hang") then "executor-pinned-buffer"
       else if absentSelected c r.split then "groupby-absent-column"
       else ""
   | .overflow, some _ => if sentinelPartial c r.split then "sum-sentinel" else if may then "sum-overflow-order" else ""
+  -- the reference fails with Overflow but this layout fails earlier with another error
+  | .overflow, none =>
+      if absentSelected c r.split then "groupby-absent-column"
+      else if pinnedKeyAggregate c && (r.out = "err:canceled" || r.out = "panic" || r.out = "hang") then "executor-pinned-buffer"
+      else ""
   | _, _ => ""
 
 /-! ### classifiers for sel / ord -/
